@@ -57,6 +57,10 @@ def codes(shape, dtype, seed=0, small=False):
         a = a * np.where((x + y + z) % 2 == 0, 1, -1).astype(DT[dtype])  # both signs
         if dtype == "float64":
             a[nx - 1, ny - 1, nz - 1] = c[nx - 1, ny - 1, nz - 1] + 0.1  # needs rounding to become float32
+            if a.size > 1:
+                # a double just below the next integer: float32 rounds it UP to that integer, an integer cast of the double
+                # itself truncates it DOWN (order of narrowing and casting is observable)
+                a[0, 0, 0] = c[0, 0, 0] + 0.99999999
         return a
     if dtype == "int16":
         return ((c * 7919 + 13) % 65535 - 32767).astype(np.int16)
